@@ -1,12 +1,23 @@
 package main
 
-import "fmt"
+import (
+	"fmt"
+	"strings"
+)
 
 // extraTagSets are analysed in the thorough tier in addition to the Makefile default.
 var extraTagSets = []string{
 	"", // what the pinned test suite compiles
 	"badger basholeveldb filestore gbucket swift ngprecomputed", // every back end that type-checks here
 }
+
+// noteOnly configurations are analysed and reported in the evidence, but a finding there is never a
+// violation: with every back end compiled in, the call graph resolves storage interface calls to the
+// gbucket/swift/leveldb implementations as well, whose internals (write-through caches, their own
+// versioning) are outside every property's anchors (storage/badger, filestore).  Rules that reach
+// "a storage write" through a read method of those back ends would raise alarms on code the
+// properties do not speak about.
+var noteOnly = map[string]bool{"badger basholeveldb filestore gbucket swift ngprecomputed": true}
 
 // crossBuild re-runs the property's rules on the other build configurations.  Obligations that are
 // violated or undecided there and not already reported are added (construct prefixed by the tag
@@ -19,6 +30,50 @@ func (r *Run) crossBuild(repo string) {
 			r.undecided("crossbuild:"+tags, fmt.Sprintf("cannot load build configuration tags=%q: %v", tags, err))
 			continue
 		}
+		// packages that only exist (have compiled functions) in this configuration: other back ends
+		// (gbucket, swift, basholeveldb …).  The properties anchor the Badger/filestore code of the
+		// default build; findings inside those extra packages are reported as notes, not violations.
+		base := map[string]bool{}
+		for _, f := range r.W.RepoFuncs {
+			base[relPkg(pkgPathOf(f))] = true
+		}
+		extra := map[string]bool{}
+		for _, f := range w.RepoFuncs {
+			if p := relPkg(pkgPathOf(f)); !base[p] {
+				extra[p] = true
+			}
+		}
+		baseFiles := map[string]bool{}
+		for _, f := range r.W.RepoFuncs {
+			if fn := r.W.fposFile(f); fn != "" {
+				baseFiles[strings.TrimPrefix(fn, repo+"/")] = true
+			}
+		}
+		inExtra := func(o *Obligation) bool {
+			for p := range extra {
+				if p != "" && (strings.Contains(o.Construct, p+".") || strings.Contains(o.Construct, p+":") || strings.HasPrefix(o.Pos, p+"/")) {
+					return true
+				}
+			}
+			// a position in a file the default configuration does not compile
+			if i := strings.LastIndex(o.Pos, ":"); i > 0 && strings.HasSuffix(o.Pos[:i], ".go") {
+				return !baseFiles[o.Pos[:i]]
+			}
+			// no position: "pkg.Type…" naming a type the default configuration does not have
+			c := strings.TrimPrefix(strings.TrimPrefix(o.Construct, "(*"), "(")
+			if i := strings.Index(c, "."); i > 0 && strings.Contains(c[:i], "/") {
+				pkg := c[:i]
+				rest := c[i+1:]
+				j := strings.IndexAny(rest, ".:)")
+				if j < 0 {
+					j = len(rest)
+				}
+				if r.W.named(pkg, rest[:j]) == nil && r.W.fn(pkg, rest[:j]) == nil {
+					return true
+				}
+			}
+			return false
+		}
 		sub := &Run{W: w, Prop: r.Prop, Tier: r.Tier, Seed: r.Seed, Known: r.Known, start: r.start}
 		for _, d := range rules {
 			if d.Prop != r.Prop {
@@ -30,6 +85,17 @@ func (r *Run) crossBuild(repo string) {
 		for _, o := range sub.Obls {
 			switch o.st {
 			case Violated:
+				if noteOnly[tags] {
+					nv++
+					if nv <= 5 {
+						r.note("cross-build tags=%q (note-only configuration): %s %s — %s", tags, o.Rule, o.Construct, o.Detail)
+					}
+					continue
+				}
+				if inExtra(o) {
+					r.note("cross-build tags=%q: %s %s — outside the anchored configuration (package compiled only with these tags): %s", tags, o.Rule, o.Construct, o.Detail)
+					continue
+				}
 				nv++
 				dup := false
 				for _, p := range r.Obls {
